@@ -1,5 +1,5 @@
 (* Extraction of the byte-core model for the correspondence check (ExtrOcamlBasic only). *)
-From Verif Require Import Bytes Base64 LineBreaker QP HeaderFold WordEnc Writer Smime Crypto Builder.
+From Verif Require Import Bytes Base64 LineBreaker QP HeaderFold WordEnc Writer Smime Crypto Builder Setters.
 Require Extraction.
 Require Import ExtrOcamlBasic.
 Extraction "model.ml"
@@ -9,4 +9,5 @@ Extraction "model.ml"
   Bytes.lines_ok
   WordEnc.word_encode Writer.write_to Writer.unlimited Writer.fail_at Writer.enc_of_name Writer.sanitize Writer.file_headers Writer.has_mixed Writer.has_related Writer.has_alt
   Smime.write_to_signed Smime.sign_input Crypto.sha256
-  Builder.build Builder.apply_bop Builder.empty_state.
+  Builder.build Builder.apply_bop Builder.empty_state
+  Setters.apply_cop Setters.new_state.
